@@ -572,10 +572,10 @@ def body_recurrence(ctx, case):
 
 
 SUBS = [
-    Sub(name="inverse", body=body_inverse, strategy=lambda ctx: inverse_strategy(ctx), quick=900, thorough=120000,
-        lanes=("f64", "f32"), f32_fraction=0.2,
+    Sub(name="inverse", body=body_inverse, strategy=lambda ctx: inverse_strategy(ctx), quick=900, thorough=60000,
+        lanes=("f64", "f32"), f32_fraction=0.1,
         rule="coefficients -> susceptibility_from_coefficients equals the declared chi; padded slots contribute 0"),
-    Sub(name="recurrence", body=body_recurrence, strategy=lambda ctx: recurrence_strategy(ctx), quick=1500, thorough=100000,
+    Sub(name="recurrence", body=body_recurrence, strategy=lambda ctx: recurrence_strategy(ctx), quick=1500, thorough=60000,
         lanes=("f64",), rule="response of the stored recurrence vs declared chi (explicit bound, 4x under dt/2), roots in disc"),
 ]
 KNOWN_CLASSES = {}
